@@ -602,6 +602,11 @@ func c17FillConf(c *Ctx) {
 				}
 			}
 		}
+		for _, bf := range BoolFactsAt(in) {
+			if bf.Val && isEqualFoldType(bf.Subj) {
+				isTypeKey = true
+			}
+		}
 		if !isTypeKey {
 			okDel = false
 		}
@@ -651,7 +656,7 @@ func c17CopyWithoutType(c *Ctx, pc *ssa.Function, tsk *ssa.Call, copyMap *ssa.Ma
 		}
 		return false
 	}
-	isTypeEq := func(v ssa.Value) bool { return isTypeCmp(v, token.EQL) }
+	isTypeEq := func(v ssa.Value) bool { return isTypeCmp(v, token.EQL) || isEqualFoldType(v) }
 	isTypeNe := func(v ssa.Value) bool { return isTypeCmp(v, token.NEQ) }
 	var ups []*ssa.MapUpdate
 	EachInstr(pc, func(in ssa.Instruction) {
@@ -1163,6 +1168,20 @@ func c17Placeholders(c *Ctx) {
 	}
 	_ = os.Getenv
 	_ = filepath.Join
+}
+
+// isEqualFoldType: v is strings.EqualFold(x, "type") (either argument order; "type" may be the PluginNameKey constant).
+func isEqualFoldType(v ssa.Value) bool {
+	cl, ok := v.(*ssa.Call)
+	if !ok || !MatchCC(&cl.Call, Spec{"strings", "", "EqualFold"}) || len(cl.Call.Args) != 2 {
+		return false
+	}
+	for _, a := range cl.Call.Args {
+		if s, isS := ConstString(a); isS && s == "type" {
+			return true
+		}
+	}
+	return false
 }
 
 // c17IsTypeKeyTest: fn returns, on every return, whether its parameter #ki is the key "type" in any letter case:
